@@ -35,6 +35,9 @@ def run(tier):
     c.exhaustive = True
     c.assumptions = ["TLC 1.8", "arrival points are reproduced at hook events inside collect_requests (synchronous tracer)", "loopback UDP delivers synchronously",
                      "reply facts computed by the interpretation I"]
+    if tier == "thorough":
+        from checks import selftests
+        selftests.run_for(c)
     return c.finish()
 
 
